@@ -410,39 +410,47 @@ def check_C09(report, tier, seed, replay=None):
         version = op[0] in ("checkscript", "renamescript")
         stream = pre + rb + SENT_REPLIES
         ops = [op, SENT1, SENT2, SENT3]
-        got = run_impl_canned(ops, [stream], version)
-        mod = run_model_canned(drv, ops, [stream], version)
-        nontriv = ab["code"] is not None or ab["text"] is not None
-        report.case((op, rb), nontriv, {"op": op[0], "reply": repr(rb), "impl": got[0][0]})
-        report.count("status:" + ab["status"])
-        report.count("shape:%s%s" % ("code" if ab["code"] else "nocode", ("+" + ab["enc"]) if ab["text"] is not None else ""))
-        if mod != got:
-            report.broke("correspondence C09 (model vs client on status replies)",
-                         "op=%r reply=%r model=%r impl=%r" % (op, rb, mod[0], got[0]), {"op": [repr(x) for x in op], "stream": hx(stream)})
-        kind, code, text = expected_simple(ab)
-        out = got[0][0]
-        head, rest = out.split(" ", 1)
-        fields = dict(kv.split("=") for kv in rest.split(" "))
-        ok = True
-        if kind == "ok":
-            if op[0] == "listscripts":
-                ok = head == "D:l:%s:%s" % (hx(b"b"), hx(b"a"))
-            elif op[0] == "getscript":
-                ok = head == "D:b:" + hx(b"keep;")
+        # the reply in one piece, and cut between the CR and the LF that end its status line / its last line (the reader
+        # must not depend on where recv() cuts the stream: C05; here only the cuts a line reader is most likely to trip on)
+        cuts = [None, len(pre) + rb.find(b"\r\n") + 1]
+        if len(pre) + len(rb) - 1 not in cuts:
+            cuts.append(len(pre) + len(rb) - 1)
+        for cut in cuts:
+            chunks = [stream] if cut is None else [stream[:cut], stream[cut:]]
+            report.count("delivery:" + ("whole" if cut is None else "cut-cr-lf"))
+            got = run_impl_canned(ops, chunks, version)
+            mod = run_model_canned(drv, ops, chunks, version)
+            nontriv = ab["code"] is not None or ab["text"] is not None
+            report.case((op, rb, cut), nontriv, {"op": op[0], "reply": repr(rb), "impl": got[0][0]})
+            report.count("status:" + ab["status"])
+            report.count("shape:%s%s" % ("code" if ab["code"] else "nocode", ("+" + ab["enc"]) if ab["text"] is not None else ""))
+            if mod != got:
+                report.broke("correspondence C09 (model vs client on status replies)",
+                             "op=%r reply=%r model=%r impl=%r" % (op, rb, mod[0], got[0]), {"op": [repr(x) for x in op], "stream": hx(stream)})
+            kind, code, text = expected_simple(ab)
+            out = got[0][0]
+            head, rest = out.split(" ", 1)
+            fields = dict(kv.split("=") for kv in rest.split(" "))
+            ok = True
+            if kind == "ok":
+                if op[0] == "listscripts":
+                    ok = head == "D:l:%s:%s" % (hx(b"b"), hx(b"a"))
+                elif op[0] == "getscript":
+                    ok = head == "D:b:" + hx(b"keep;")
+                else:
+                    ok = head == "D:true"
+            elif kind == "error":
+                ok = head == "F:Error"
             else:
-                ok = head == "D:true"
-        elif kind == "error":
-            ok = head == "F:Error"
-        else:
-            want_head = "D:none" if op[0] in ("listscripts", "getscript") else "D:false"
-            ok = head == want_head and fields["errcode"] in (hx(code), "-" if code == b"" else hx(code)) and fields["errmsg"] == hx(text)
-        # the sentinels must see their own replies (the status reply was consumed exactly) unless BYE ended the session
-        if kind != "error":
-            ok = ok and got[0][1].startswith("D:false") and ("errcode=" + hx(b"S1")) in got[0][1] \
-                and got[0][2].startswith("D:true") and got[0][3].startswith("D:b:x ")
-        if not ok:
-            report.violation("result does not mirror the status reply: %s on %r gives %r" % (op[0], rb, got[0]),
-                             {"property": "C09", "op": [repr(x) for x in op], "stream": hx(stream), "version": version})
+                want_head = "D:none" if op[0] in ("listscripts", "getscript") else "D:false"
+                ok = head == want_head and fields["errcode"] in (hx(code), "-" if code == b"" else hx(code)) and fields["errmsg"] == hx(text)
+            # the sentinels must see their own replies (the status reply was consumed exactly) unless BYE ended the session
+            if kind != "error":
+                ok = ok and got[0][1].startswith("D:false") and ("errcode=" + hx(b"S1")) in got[0][1] \
+                    and got[0][2].startswith("D:true") and got[0][3].startswith("D:b:x ")
+            if not ok:
+                report.violation("result does not mirror the status reply%s: %s on %r gives %r" % ("" if cut is None else " (reply delivered in two segments, cut at byte %d, between CR and LF)" % cut, op[0], rb, got[0]),
+                                 {"property": "C09", "op": [repr(x) for x in op], "stream": hx(stream), "version": version, "cut": cut})
     # NO / BYE at each step of the emulated rename
     for i in range(90 if tier == "quick" else 900):
         step = rng.randrange(0, 5)
